@@ -33,7 +33,7 @@ def build_real(ctx):
 
 
 def run(ctx):
-    n = ctx.n(12000, 600000)
+    n = ctx.n(40000, 800000)
     per = max(1, n // core.NCPU)
     jobs = []
     for mode in (0, 1):
